@@ -103,18 +103,25 @@ def run_schedules(ck, exe, configs, validate=True):
         except OSError:
             pass
     model = wv.run_lines([mdrv], mlines, env=env) if mlines else {}
+    # the same schedules replayed on the TRANSLATED protocol functions (Gen/Src_conc.v, regenerated from /repo) under the thread
+    # semantics MiniCConc: a subset (the interpreter is slow), shortest schedules first plus a few long ones
+    by_len = sorted(mlines, key=len)
+    pick = by_len[:100 if ck.tier == "thorough" else 60] + by_len[-4:]
+    srcm = wv.run_lines([mdrv, "src"], pick, shards=wv.NCPU, env=env) if pick else {}
     for r in res:
         r["model"] = model.get("m%d" % r["i"])
+        r["srcmodel"] = srcm.get("m%d" % r["i"])
     return res
 
 
-def validate_trace(r):
+def validate_trace(r, key="model"):
     """None if the implementation's execution is an execution of the model (same events at every step, same number
-    of enabled threads, same output, model terminal), else a description"""
-    m = r.get("model")
+    of enabled threads, same output, model terminal), else a description.  key = "model": the hand-written transition system
+    PipeConc; key = "srcmodel": the TRANSLATED protocol functions under the thread semantics MiniCConc"""
+    m = r.get(key)
     if m is None:
         return None
-    if m == "BLOCKED":
+    if m.startswith("BLOCKED"):
         return "the model cannot follow the implementation's schedule (a thread ran that the model says is blocked)"
     f = dict(x.split("=", 1) for x in m.split()[1:] if "=" in x)
     ms = model_log(f.get("log", ""))
